@@ -133,11 +133,13 @@ class Doc:
             mname = upper_camel(m["name"])
             # pilota treats every argument that is not explicitly optional as required
             argf = [schema_field(dict(a, req=("optional" if a["req"] == "optional" else "required"))) for a in m["args"]]
-            # pilota's "args" set: every type named in an argument type, the return type or throws
+            # pilota's "args" set: a named type that IS an argument type, the return type or a throws
+            # type (the resolver does not carry the flag into container element types)
+            direct = lambda t: {t["name"]} if t["t"] == "ref" else set()
             for a_ in m["args"] + m.get("throws", []):
-                self.arg_refs |= refs_in(a_["ty"])
+                self.arg_refs |= direct(a_["ty"])
             if m["ret"] is not None:
-                self.arg_refs |= refs_in(m["ret"])
+                self.arg_refs |= direct(m["ret"])
             for suffix in ["ArgsSend", "ArgsRecv"]:
                 self.types.append({"name": name + mname + suffix, "kind": "struct", "fields": argf, "synth": True, "is_arg": True})
             variants = []
@@ -326,6 +328,14 @@ def thrift_sem():
         ("cchain", b("i32"), "C_INT2", vI("I32", 42)), ("cdbl", b("double"), "C_DBL", vDouble(5)), ("cneg", b("i64"), "C_NEG", vI("I64", -77)),
         ("tden", ref("TdColor"), "Color.Blue", vI("I32", 7)),
         ("ssq", b("string"), "'single'", vBin("single")),
+        # repeated elements: a list keeps them (and their order), a set does not care
+        ("ldup", lst(b("i32")), "[1, 1, 2, 1]", vList("I32", [vI("I32", 1), vI("I32", 1), vI("I32", 2), vI("I32", 1)])),
+        ("lsdup", lst(b("string")), '["a", "b", "b", "a"]', vList("Bin", [vBin("a"), vBin("b"), vBin("b"), vBin("a")])),
+        ("lbdup", lst(b("bool")), "[true, true, false, true]", vList("Bool", [vBool(True), vBool(True), vBool(False), vBool(True)])),
+        ("lddup", lst(b("double")), "[2.5, 2.5]", vList("Double", [vDouble(2.5), vDouble(2.5)])),
+        ("mldup", mp(b("string"), lst(b("i32"))), '{"a": [7, 7, 8]}', vMap("Bin", "List", [(vBin("a"), vList("I32", [vI("I32", 7), vI("I32", 7), vI("I32", 8)]))])),
+        ("lpt", lst(ref("Pt")), '[{"Y": 1}, {"Y": 1}]', vList("Struct", [vStruct([(2, vI("I32", 1))]), vStruct([(2, vI("I32", 1))])])),
+        ("llist", lst(lst(b("i32"))), "[[1, 1], [1, 1], []]", vList("List", [vList("I32", [vI("I32", 1), vI("I32", 1)]), vList("I32", [vI("I32", 1), vI("I32", 1)]), vList("I32", [])])),
     ]
     for req, nm in [("optional", "DOpt"), ("required", "DReq"), ("default", "DDef")]:
         d.struct(nm, [fld(i + 1, n, t, req, lit=lit, default=val) for i, (n, t, lit, val) in enumerate(cases)])
@@ -358,6 +368,11 @@ def thrift_sem():
     d.struct("Ex2", [fld(1, "why", b("string"))], kind="exception")
     d.struct("Ex3", [fld(1, "code", b("i32"), "required")], kind="exception")
     d.struct("Holder", [fld(1, "r", ref("Req")), fld(2, "rs", lst(ref("Req"))), fld(3, "m", mp(b("i32"), ref("Req")))])
+    # types that occur only INSIDE container-typed arguments / results (not in pilota's "args" set)
+    d.struct("Elem", [fld(1, "k", b("string")), fld(2, "n", b("i32"))])
+    d.struct("ElemV", [fld(1, "v", b("i64")), fld(2, "tags", lst(b("string")))])
+    d.struct("ElemR", [fld(1, "s", b("string"), "required")])
+    d.struct("ElemK", [fld(1, "id", b("i32"), "required")])
     a = lambda i, n, t, req="default": {"id": i, "name": n, "ty": t, "req": req}
     d.service("Svc", [
         {"name": "ping", "args": [], "ret": None},
@@ -366,6 +381,7 @@ def thrift_sem():
         {"name": "getTwo", "args": [a(1, "key", b("string"), "required"), a(2, "req", ref("Req")), a(3, "flag", b("bool"))], "ret": lst(b("string")),
          "throws": [a(1, "e", ref("Ex2")), a(2, "f", ref("Ex3"))]},
         {"name": "many", "args": [a(1, "xs", lst(b("string"))), a(2, "m", mp(b("i32"), ref("Req")))], "ret": mp(b("string"), b("i32"))},
+        {"name": "submit", "args": [a(1, "items", lst(ref("Elem"))), a(2, "m", mp(b("string"), ref("ElemV"))), a(3, "ks", st(ref("ElemK")))], "ret": lst(ref("ElemR"))},
         {"name": "flagIt", "args": [a(1, "on", b("bool"), "required"), a(2, "maybe", b("i64"), "optional"), a(3, "h", ref("Holder"), "optional")], "ret": b("bool")},
     ])
     docs.append(d)
@@ -558,6 +574,20 @@ struct UsesClean { 1: set<CleanA> as, 2: map<CleanB, i32> bm }
 struct Outer { 1: Alpha a, 2: Gamma g, 3: Tri2 t, 4: Sq2 q, 5: list<Beta> bs }
 """
     docs.append(RawDoc("recursion_derive", {"recursion_derive.thrift": body}, label="type-cycles-reaching-non-derivable-types"))
+    # every list/set/map nesting of depth 3 over four leaves (hashable where a key or set element)
+    fields3 = []
+    for leaf in ["i32", "string", "double", "D3Inner"]:
+        for inner in ["list<%s>" % leaf, "set<%s>" % leaf, "map<string, %s>" % leaf]:
+            if inner.startswith("set") and leaf in ("double", "D3Inner"):
+                continue
+            for mid in ["list<%s>" % inner, "map<i32, %s>" % inner] + (["set<%s>" % inner] if inner.startswith("list") and leaf in ("i32", "string") else []):
+                for outer in ["list<%s>" % mid, "map<string, %s>" % mid]:
+                    fields3.append(outer)
+    body = "struct D3Inner { 1: optional string v }\n"
+    for ci, ch in enumerate(chunks(fields3, 20)):
+        body += "struct Deep3_%d {\n" % ci + "\n".join("    %d: optional %s f%d," % (i + 1, t, i) for i, t in enumerate(ch)) + "\n}\n"
+    body += "typedef list<list<map<string, i32>>> TdDeep\nstruct UsesTdDeep { 1: optional TdDeep d, 2: list<list<set<i32>>> s }\n"
+    docs.append(RawDoc("containers_d3_all", {"containers_d3_all.thrift": body}, label="container-nesting-depth-3-all"))
     body = """union UDirect { 1: UDirect u, 2: i32 v }
 struct HoldsU { 1: optional UDirect u }
 service UDirectSvc { HoldsU get(1: UDirect u) }
